@@ -630,6 +630,17 @@ def recordFailure (H : Bytes → UInt64) (s : AFStore) (id : Nat) (name : Bytes)
     (h, { id := id, kind := FKind.question, name := n, qtype := qtype, qclass := qclass, cd := cd,
           scope := sc, active := true }) :: s.filter (·.1 != h)
 
+/-- `Store.RecordZoneFailure` → `FailureCache.RecordZone` for a live cache: filed under the
+zone hash of (canonical zone, class OF THE QUESTION being resolved). -/
+def recordZoneFailure (H : Bytes → UInt64) (s : AFStore) (id : Nat) (zone : Bytes) (qclass : UInt16) : AFStore :=
+  let z := canonicalName zone
+  match loadZone H s.get z qclass with
+  | some _ => s
+  | none =>
+    let h := failureZoneHash H z qclass
+    (h, { id := id, kind := FKind.zone, name := z, qtype := 0, qclass := qclass, cd := false,
+          scope := none, active := true }) :: s.filter (·.1 != h)
+
 /-- `FailureCache.ResetZone`. -/
 def resetZone (H : Bytes → UInt64) (s : AFStore) (zone : Bytes) (qclass : UInt16) : AFStore :=
   match loadZone H s.get zone qclass with
